@@ -150,6 +150,27 @@ func (s *Sched) Await(name string, d time.Duration) (Arrival, error) {
 	}
 }
 
+// TryAwait is Await without the goroutine dump: ok=false means "no arrival within d", which a test
+// uses to recognise that the released goroutine is blocked inside the client (e.g. on a mutex).
+func (s *Sched) TryAwait(name string, d time.Duration) (Arrival, bool) {
+	deadline := time.Now().Add(d)
+	t := time.AfterFunc(d, func() { s.mu.Lock(); s.cond.Broadcast(); s.mu.Unlock() })
+	defer t.Stop()
+	s.mu.Lock()
+	defer s.mu.Unlock()
+	for {
+		if a := s.byName[name]; a != nil && len(a.pending) > 0 {
+			ar := a.pending[0]
+			a.pending = a.pending[1:]
+			return ar, true
+		}
+		if time.Now().After(deadline) {
+			return Arrival{}, false
+		}
+		s.cond.Wait()
+	}
+}
+
 // AwaitAny returns the next unconsumed arrival of any of the named actors.
 func (s *Sched) AwaitAny(names []string, d time.Duration) (Arrival, error) {
 	deadline := time.Now().Add(d)
